@@ -120,6 +120,22 @@ def shape_records(tag, j, g, rng):
         qs = [rng.sample(range(5), rng.randrange(0, 4)) for _ in range(6)] + [list(m) for m in mem[:3]] + [m[:-1] for m in mem[:3] if m]
         r, res = _do(lambda: [[q, bool(T.search([g.node(x) for x in rng.sample(q, len(q))]))] for q in qs])
         add("trie", res, r, mem=mem)
+    # views restricted to bunches and their set algebra (bunches given in any order, with repetitions)
+    for k, (view, ids_, inv, lab) in enumerate(((H.nodes, st["nodes"], iN, g.node), (H.edges, st["edges"], iE, g.edge))):
+        for _ in range(3):
+            A = [x for x in ids_ if rng.random() < 0.6]
+            B = [x for x in ids_ if rng.random() < 0.5]
+            if rng.random() < 0.15:
+                B = B + [77 if k == 0 else 55]
+            rng.shuffle(A)
+            rng.shuffle(B)
+
+            def f():
+                va, vb = view(lab(x) for x in A + A[:1]), view([lab(x) for x in B])
+                return [[inv(x) for x in va & vb], [inv(x) for x in va | vb], [inv(x) for x in va - vb], [inv(x) for x in va ^ vb],
+                        [inv(x) for x in va], [bool(va.isdisjoint(vb))], [len(va)]]
+            r, res = _do(f)
+            add("view_algebra", res, r, st=st, k=k, s=A, ids=B)
     # parametrised global measures
     for fn in ("density", "incidence_density"):
         for k in (NONE, 0, 1, 2, 3, 4):
